@@ -53,6 +53,10 @@ func (app *App) mount(prefix string, subApp *App) Router {
 		app.mountFields.appList[path] = subApp
 	}
 
+	// A mount made after the app was started is processed by the next start
+	app.mountFields.subAppsProcessed = sync.Once{}
+	app.mountFields.subAppsRoutesAdded = sync.Once{}
+
 	// register mounted group
 	mountGroup := &Group{Prefix: prefix, app: subApp}
 	app.register([]string{methodUse}, prefix, mountGroup)
@@ -82,6 +86,10 @@ func (grp *Group) mount(prefix string, subApp *App) Router {
 		subApp.mountFields.mountPath = path
 		grp.app.mountFields.appList[path] = subApp
 	}
+
+	// A mount made after the app was started is processed by the next start
+	grp.app.mountFields.subAppsProcessed = sync.Once{}
+	grp.app.mountFields.subAppsRoutesAdded = sync.Once{}
 
 	// register mounted group
 	mountGroup := &Group{Prefix: groupPath, app: subApp}
@@ -122,6 +130,7 @@ func (app *App) mountStartupProcess() {
 
 // generateAppListKeys generates app list keys for Render, should work after appendSubAppLists
 func (app *App) generateAppListKeys() {
+	app.mountFields.appListKeys = app.mountFields.appListKeys[:0]
 	for key := range app.mountFields.appList {
 		app.mountFields.appListKeys = append(app.mountFields.appListKeys, key)
 	}
